@@ -4,6 +4,7 @@ package NoKV
 
 import (
 	"fmt"
+	"sync"
 
 	"github.com/feichai0017/NoKV/kv"
 	"github.com/feichai0017/NoKV/lsm"
@@ -138,3 +139,12 @@ func (db *DB) VerifSetWatermarkWindow(n int) {
 
 // VerifReadMarkDoneUntil exposes the oracle's read watermark (diagnostics).
 func (db *DB) VerifReadMarkDoneUntil() uint64 { return db.orc.readMark.DoneUntil() }
+
+// VerifResetPools replaces the package-level object pools. A simulation
+// process runs thousands of databases in separate synctest bubbles one after
+// another; a pooled request whose WaitGroup is still associated with an earlier
+// bubble (a run that ended with a call blocked) must not be reused in the next.
+func VerifResetPools() {
+	requestPool = sync.Pool{New: func() any { return new(request) }}
+	commitReqPool = sync.Pool{New: func() any { return &commitRequest{} }}
+}
